@@ -16,7 +16,10 @@ RULE = (
     "behind the best price, both sides, TIF none/FILL_OR_KILL with min_fill absent/below/equal/above size/0.01, "
     "best_price_execution on/off, simulated_full_match on/off, LAPSE/PERSIST, followed by 0-6 book/trade updates "
     "(the update that executes the placement carries a different book, so look-ahead would show). Non-trivial: at "
-    "least one fragment appeared (arrival or passive) or a FOK/BPE decision was exercised; distinct = distinct case JSON."
+    "least one fragment appeared (arrival or passive) or a FOK/BPE decision was exercised; distinct = distinct case JSON. "
+    "Sub-check resting: runs with 1-6 resting orders and multi-price traded updates (generator of C06); a resting order "
+    "gains only at its limit price and never more than half the volume that traded at or through its limit since it "
+    "arrived; non-trivial: a passive fill out of an update that also traded at a price worse than the limit."
 )
 ASSUMPTIONS = [
     "SP conversion fills (MARKET_ON_CLOSE persistence / in-play BSP) are excluded by construction: they take the starting price by exchange rule (covered by C04/C08)",
@@ -220,13 +223,83 @@ def check(sc):
     return nt, classes
 
 
+def check_resting(sc):
+    """Resting orders (scenarios of the C06 generator: 1-6 resting orders, traded updates with several prices): what
+    a resting order gains out of one update is at its own limit price and is covered by volume that traded in that
+    update AT OR THROUGH its limit (half the reported amount) - trades at a worse price never fill it."""
+    from . import c06
+
+    lb = simlab.run_scenario(sc, snapshot_cbs=("process_market_book",))
+    if lb.error is not None:
+        raise crash_violation(lb.error, sc, "run-aborted")
+    ups = lb.renderers[0].updates
+    epoch = __import__("datetime").datetime(1970, 1, 1)
+    pt2idx = {u.pt: u.idx for u in ups}
+    hist = {}
+    for rec in lb.log:
+        u = pt2idx[int(round((rec["pt"] - epoch).total_seconds() * 1000))]
+        for o in rec["orders"]:
+            hist.setdefault(o["oid"], {})[u] = o
+    classes = set()
+    nt = False
+    for oid, h in hist.items():
+        us = sorted(h)
+        ack = next((u for u in us if h[u]["status"] != "PENDING"), None)
+        if ack is None:
+            continue
+        side, limit = h[ack]["side"], h[ack]["price"]
+        prev = 0.0
+        allowed = Fraction(0)
+        chunks = 0
+        for u in range(ack, len(ups)):
+            delta = ups[u].traded_delta[0]
+            el = {p: v for p, v in delta.items() if c06.eligible(side, limit, p)}
+            allowed += sum(Fraction(str(v)) for v in el.values()) / 2
+            chunks += len(el)
+            snap = h.get(u)
+            if snap is None:
+                continue
+            passive = 0.0
+            for t, p, sz in snap["matched"]:
+                if t == ups[ack - 1].pt:
+                    if (side == "BACK" and p < limit) or (side == "LAY" and p > limit):
+                        raise Violation("fill-worse-than-limit", (side, "arrival"), "fragment at %s for limit %s" % (p, limit), sc)
+                    continue
+                if p != limit:
+                    raise Violation("passive-fill-not-at-limit", (side,), "passive fragment at %s, limit %s" % (p, limit), sc)
+                passive += sz
+            passive = round(passive, 2)
+            if passive > float(allowed) + 0.005 * chunks + 1e-6:
+                worse = {p: v for p, v in delta.items() if p not in el}
+                raise Violation("resting-order-filled-by-trades-beyond-its-limit", (side,),
+                                "%s order limit %s: passive fill %s after update %d, but only %s (half of the reported volume) traded at or through the limit since it arrived; this update traded %s of which at a worse price %s" % (
+                                    side, limit, passive, u, float(allowed), delta, worse), sc)
+            if passive > prev:
+                classes.add("passive-fill")
+                if any(not c06.eligible(side, limit, p) for p in delta):
+                    nt = True
+                    classes.add("passive-fill-in-update-straddling-the-limit")
+            prev = passive
+    return nt, classes
+
+
 def sub_place(col, budget, seed, tier, shard, nshards):
     run_given(col, case(tier), check, budget, seed, tier, "place")
 
 
+def sub_resting(col, budget, seed, tier, shard, nshards):
+    from . import c06
+
+    run_given(col, c06.scenario(tier), check_resting, budget, seed, tier, "resting")
+
+
 def subchecks(tier):
-    return [SubCheck("place", sub_place, 6000 if tier == "quick" else 300000)]
+    return [SubCheck("place", sub_place, 6000 if tier == "quick" else 300000),
+            SubCheck("resting", sub_resting, 1500 if tier == "quick" else 40000)]
 
 
 def replay(c, sub=None):
-    check(c)
+    if sub == "resting" or "strategies" in c:
+        check_resting(c)
+    else:
+        check(c)
